@@ -1502,4 +1502,11 @@ example :
     let p16 : Proc := { p4 with nofile := some 16 }
     pipeOk p4 = false ∧ hereDocOk p4 = false ∧ pipeOk p16 = true ∧ hereDocOk p16 = true := by decide
 
+/-- The model's (and the Spec's) answer for a case does not mention what the FIRST member of the innermost pipeline does
+    to its own state (`A:` ops, sweep 1i) nor under which schedule (`yield_is_invisible`): by `two_children_isolated`
+    nothing a sibling process does can show in the starter or in the other member.  The differential run checks the
+    real shell against this one answer under 5 executor schedules per program. -/
+theorem sibling_member_invisible (copied : List (String × String)) (c : Case) (ops : List Op) :
+    runCase copied { c with first := ops } = runCase copied c := rfl
+
 end YashModel.Fork
